@@ -318,6 +318,9 @@ func genMerge(r *rand.Rand) dockerIn {
 	in := baseIn()
 	in.Shape = "merge"
 	nc := 2 + r.Intn(7)
+	if r.Intn(6) == 0 {
+		nc = 9 + r.Intn(9) // more containers than any batch size a fan-out might use
+	}
 	sorted := r.Intn(5) != 0
 	tie := r.Intn(2) == 0
 	for c := 1; c <= nc; c++ {
@@ -393,6 +396,21 @@ func genSelect(r *rand.Rand) dockerIn {
 			m.Re, _ = json.Marshal(&ReAST{T: "eps"})
 		} else {
 			re := genReA(r, 3, "abwex.y 1")
+			if r.Intn(5) == 0 {
+				// a plain literal (one of the values in use, or its upper-case form) under the (?i) flag: letter case must not matter,
+				// and the flag must survive whatever shortcut a literal pattern takes
+				lit := []string{"a", "ab", "b", "web", "x y", "a.b", "A"}[r.Intn(7)]
+				if r.Intn(2) == 0 {
+					lit = strings.ToUpper(lit)
+				}
+				var node *ReAST = &ReAST{T: "eps"}
+				for i := len(lit) - 1; i >= 0; i-- {
+					node = &ReAST{T: "cat", A: &ReAST{T: "lit", C: int(lit[i])}, B: node}
+				}
+				re = &ReAST{T: "ci", A: node}
+			} else if r.Intn(8) == 0 {
+				re = &ReAST{T: "ci", A: re}
+			}
 			m.Val = B(re.Text())
 			m.Re, _ = json.Marshal(re)
 		}
